@@ -53,6 +53,7 @@ class Gensym:
         ident = self._copy_id(ident)
         while ident in self._idents:
             ident.count = self._counter
+            ident._hash = None # the hash is cached and depends on `count`
             self._counter += 1
 
         self._idents.add(ident)
